@@ -251,6 +251,20 @@ def _mutable_globals_read(prog: Program, ref: FuncRef, depth: int = 0, seen: set
                                 out.append((ref, s[1]))
                             elif not pure and name.isupper() and isinstance(val, (ast.Dict, ast.List, ast.Set)):
                                 pass       # registries are constants by convention (never mutated: checked by REG rules)
+    # writes into module-level objects, whatever their name
+    def _root(t):
+        while isinstance(t, tuple) and t[0] in ("index", "attr"):
+            t = t[1]
+        return t
+    for ev in list(ft.of_kind("store")) + list(ft.of_kind("aug")):
+        r = _root(ev.target)
+        if isinstance(r, tuple) and r[0] == "global" and r[1].startswith(P) and prog.global_value(r[1]) is not None:
+            out.append((ref, f"write into module-level {r[1]}"))
+    for e in ft.calls():
+        if e.recv is not None and e.name in ("append", "add", "update", "setdefault", "pop", "clear", "extend", "insert", "remove", "discard"):
+            r = _root(e.recv)
+            if isinstance(r, tuple) and r[0] == "global" and r[1].startswith(P) and prog.global_value(r[1]) is not None:
+                out.append((ref, f"mutation of module-level {r[1]} via .{e.name}()"))
     for e in ft.calls():
         callee = resolve_callee(prog, ft, e)
         if callee is not None:
@@ -281,6 +295,15 @@ def rule_c11_worker(prog: Program, col: Collector) -> None:
                   "apply_action_sequence(game, full_game, action_sequence, include=known_coalitions)", construct="worker-apply-args",
                   necessity="values come from the hidden full game; the starting knowledge must be included")
     check_function(t1, col, ref, game, "P2")
+    # evaluation order: reset knowledge -> recompute -> gap (terms do not carry time, events do)
+    gaps = [e for e in ft.calls() if e.func == ("param", params[4]) and e.args == (game,)]
+    comps = [e for e in ft.calls("compute_bounds") if e.recv == game]
+    resets_ = aps + sk
+    ordered = bool(gaps) and bool(comps) and bool(resets_) and all(max(r.seq for r in resets_) < c.seq for c in comps[-1:]) and \
+        all(g.seq > comps[-1].seq for g in gaps)
+    col.check(ordered, ref.where(gaps[0].node if gaps else None), ref.short, "the gap is evaluated after the knowledge reset and the recomputation",
+              construct="worker-order", necessity="a gap taken before the reset is the gap of whatever knowledge the previous task left in this worker's game copy",
+              rule="P2")
     rets = list(ft.of_kind("return"))
     okr = len(rets) == 1 and rets[0].value[0] == "tuple" and len(rets[0].value[1]) == 2 and rets[0].value[1][0] == ("param", params[2]) \
         and rets[0].value[1][1] == ("call", ("param", params[4]), (game,), ())
